@@ -1,5 +1,5 @@
 """C08 — LZ10 compression emits a valid stream (format constants and token layout)."""
-from mir import fmt, walk, strip_refs, norm
+from mir import fmt, walk, strip_refs, norm, callee_names
 from flow import PathLimit, cond_truth
 from lz import Encoder, bitslice, canon, fmt_byte, NotBits, prune
 
@@ -274,6 +274,65 @@ def token_checks(rep, R2, R4, enc, forms, where, flag_shift=7):
         rep.ok(R4, {"tail": "flushed iff tokens are buffered"})
     else:
         rep.violation(R4, enc.body.name, "tail-flush", tail, where)
+    # flush / reset pairing on the graph (across iterations): once a group has been copied to the output, the token
+    # counter must be reset before the next copy, or the same group is written twice
+    body = enc.body
+    cl = cnt[1] if cnt[0] in ("var", "local") else None
+    if cl is not None and group_roots:
+        fl_blocks = set(e_["bb"] for p_ in enc.paths for e_ in flushes(p_))
+        resets = set()
+        for bi_, si_, st_ in body.stmts():
+            if st_["k"] == "assign" and not st_["lhs"]["p"] and st_["lhs"]["l"] == cl and st_["rv"]["k"] == "use" and "k" in st_["rv"]["a"]:
+                resets.add(bi_)
+        twice = None
+        from flow import dom_guards as _dg, cond_truth as _ct
+
+        def known_at(f_):
+            """value of the counter established by the guards of the flush block (`count == 8`), if any"""
+            for (a_, s_, c_) in _dg(body, f_):
+                ct_ = _ct(c_)
+                if ct_ and ct_[0][0] == "bin" and ct_[0][1] in ("Eq", "Ne") and ct_[0][3][0] == "const" and strip_refs(ct_[0][2])[:2] == ("var", cl):
+                    if (ct_[0][1] == "Eq") == ct_[1]:
+                        return ct_[0][3][1]
+            return None
+
+        def writes_counter(x_):
+            return any(st_["k"] == "assign" and not st_["lhs"]["p"] and st_["lhs"]["l"] == cl for st_ in body.blocks[x_]["stmts"])
+
+        for f_ in sorted(fl_blocks):
+            seen_, st2 = set(), [(s_, known_at(f_)) for s_ in body.succs(f_)]
+            while st2:
+                x_, kv = st2.pop()
+                if (x_, kv) in seen_:
+                    continue
+                seen_.add((x_, kv))
+                if x_ in fl_blocks:
+                    twice = (f_, x_)
+                    break
+                if x_ in resets:
+                    continue
+                if writes_counter(x_):
+                    kv = None
+                tt_ = body.blocks[x_]["term"]
+                nxt_ = list(body.succs(x_))
+                if kv is not None and tt_["k"] == "switch":
+                    d_ = body.term_of_operand(tt_["d"])
+                    if d_[0] == "bin" and d_[1] in ("Eq", "Ne", "Lt", "Le", "Gt", "Ge") and d_[3][0] == "const" and strip_refs(d_[2])[:2] == ("var", cl):
+                        k_ = d_[3][1]
+                        val_ = {"Eq": kv == k_, "Ne": kv != k_, "Lt": kv < k_, "Le": kv <= k_, "Gt": kv > k_, "Ge": kv >= k_}[d_[1]]
+                        tk_ = tt_["otherwise"]
+                        for v_, b_ in tt_["targets"]:
+                            if v_ == int(val_):
+                                tk_ = b_
+                        nxt_ = [tk_]
+                st2.extend((n_, kv) for n_ in nxt_)
+            if twice:
+                break
+        if twice:
+            rep.violation(R4, enc.body.name, "flush-twice", "a group copied to the output at line %s can be copied again at line %s without the token counter being reset in between: the group's bytes are written twice" % (
+                body.blocks[twice[0]]["term"].get("line"), body.blocks[twice[1]]["term"].get("line")), where)
+        elif fl_blocks and resets:
+            rep.ok(R4, {"flush_reset": "every flush is followed by a counter reset before the next flush"})
     return thresholds
 
 
